@@ -23,8 +23,11 @@ import CpModel.Pipeline
     request's while one is being served (mid-stream), and — once `release_serving` ran and
     `cherrypy.request` is the default object (`app is None`) — the value the released request left in
     `cherrypy.serving.released_show_tracebacks` (repair of finding F1; before it the class default
-    `True` was used); `start_response(s, h, exc_info)`; mid-stream the bare body is returned as one
-    more chunk.
+    `True` was used).  That value lives only between the release of a request and the end of the same
+    WSGI call (dropped when the trapper starts a call, when a new request is loaded, when the trapper's
+    response is closed), so within a call it is always the setting of the *last* released Request
+    object — the `tb` carried by `Init.raised` / `Redir.raised`.  `start_response(s, h, exc_info)`;
+    mid-stream the bare body is returned as one more chunk.
   * the server: `reads = none` iterates to the end, `some m` calls `next` at most `m` times; then
     `closes` calls of `close()`.
   Not modelled: `start_response` / `write` raising, other middleware in `pipeline`, `VirtualHost`,
